@@ -12,9 +12,10 @@ p = os.path.join(HERE, "tools", "not_claimed.json")
 if os.path.exists(p):
   reasons = json.load(open(p))
 checks, na = [], []
+ready = set(json.load(open(os.path.join(HERE, "tools", "ready.json"))))
 for pid in ids:
   mp = os.path.join(HERE, "props", pid.lower() + ".py")
-  if not os.path.exists(mp) or pid in reasons:
+  if not os.path.exists(mp) or pid in reasons or pid not in ready:
     na.append({"property_id": pid, "reason": reasons.get(pid, "check not built yet (work in progress)")})
     continue
   src = open(mp).read()
